@@ -148,6 +148,8 @@ pub struct HGlyph {
     pub class: String,
     pub points: Vec<Pt>,
     pub code: Vec<u8>,
+    /// raw `glyf` bytes of a composite glyph with its own instructions (points/code unused then)
+    pub raw_composite: Option<Vec<u8>>,
 }
 
 /// The two general geometries (5 points, one contour).
@@ -186,6 +188,7 @@ pub fn glyphs() -> Vec<HGlyph> {
             class: class.to_string(),
             points: points.to_vec(),
             code,
+            raw_composite: None,
         })
     };
     // glyph 0: empty
@@ -785,6 +788,137 @@ pub fn glyphs() -> Vec<HGlyph> {
             }
         }
     }
+    // F14 instructed composites. Five instructed simple glyphs whose programs leave points touched in x
+    // only / y only / both / both followed by IUP / not at all serve as components. Every composite has
+    // two components (first: each of the five; second: untouched or touched in both, under 5
+    // transform/flag variants) and its OWN program: move one point (of the first or of the second
+    // component) with SHPIX / MDAP[1] / MIAP[1] along x or y, then IUP[x], IUP[y] or both. FreeType
+    // un-touches all points of the assembled composite before running that program.
+    let geo = &geos[0];
+    let comp_base = out.len() as u16;
+    let comp_programs: [(&str, Vec<u8>); 5] = [
+        ("none", vec![]),
+        ("x", {
+            let mut c = vec![SVTCA_X];
+            push(&mut c, &[2]);
+            c.push(MDAP + 1);
+            c
+        }),
+        ("y", {
+            let mut c = vec![SVTCA_Y];
+            push(&mut c, &[2]);
+            c.push(MDAP + 1);
+            push(&mut c, &[3]);
+            c.push(MDAP + 1);
+            c
+        }),
+        ("both", {
+            let mut c = vec![SVTCA_X];
+            push(&mut c, &[1]);
+            c.push(MDAP + 1);
+            c.push(SVTCA_Y);
+            push(&mut c, &[3]);
+            c.push(MDAP + 1);
+            c
+        }),
+        ("both+IUP", {
+            let mut c = vec![SVTCA_X];
+            push(&mut c, &[1]);
+            c.push(MDAP + 1);
+            c.push(SVTCA_Y);
+            push(&mut c, &[3]);
+            c.push(MDAP + 1);
+            iup(&mut c);
+            c
+        }),
+    ];
+    for (_, code) in &comp_programs {
+        out.push(HGlyph {
+            class: "component of instructed composites".into(),
+            points: geo.clone(),
+            code: code.clone(),
+            raw_composite: None,
+        });
+    }
+    // composite flag bits
+    const ARGS_WORDS_XY: u16 = 0x0003;
+    const ROUND_XY: u16 = 0x0004;
+    const HAVE_SCALE: u16 = 0x0008;
+    const MORE: u16 = 0x0020;
+    const HAVE_INS: u16 = 0x0100;
+    const USE_MY_METRICS: u16 = 0x0200;
+    const SCALED_OFFSET: u16 = 0x0800;
+    // second-component variants: (extra flags, scale in F2Dot14 bits if any)
+    let variants: [(u16, Option<i16>); 5] = [
+        (0, None),
+        (ROUND_XY, None),
+        (HAVE_SCALE, Some(0x2000)),
+        (HAVE_SCALE | SCALED_OFFSET, Some(0x2000)),
+        (USE_MY_METRICS, None),
+    ];
+    // the composite's own programs
+    // (program, uses MIAP): composites moved by MIAP keep the plain class "MIAP" — under the INSTCTRL-2
+    // prep variant they show the same known cut-in divergence as the MIAP family
+    let mut programs: Vec<(Vec<u8>, bool)> = vec![];
+    for k in [3, 7] {
+        for axis in 0..2 {
+            for mover in 0..3 {
+                for iups in [vec![IUP_X], vec![IUP_Y], vec![IUP_Y, IUP_X]] {
+                    let mut c = vec![axis_op(axis)];
+                    match mover {
+                        0 => {
+                            push(&mut c, &[k, 64]);
+                            c.push(SHPIX);
+                        }
+                        1 => {
+                            push(&mut c, &[k]);
+                            c.push(MDAP + 1);
+                        }
+                        _ => {
+                            push(&mut c, &[k, 9]);
+                            c.push(MIAP + 1);
+                        }
+                    }
+                    c.extend(iups);
+                    programs.push((c, mover == 2));
+                }
+            }
+        }
+    }
+    for first in 0..5u16 {
+        for second in [0u16, 3] {
+            for (vflags, scale) in variants {
+                for (prog, is_miap) in &programs {
+                    let mut g: Vec<u8> = vec![];
+                    g.extend_from_slice(&(-1i16).to_be_bytes());
+                    for v in [-100i16, -100, 1300, 900] {
+                        g.extend_from_slice(&v.to_be_bytes());
+                    }
+                    // first component at the origin
+                    g.extend_from_slice(&(ARGS_WORDS_XY | MORE).to_be_bytes());
+                    g.extend_from_slice(&(comp_base + first).to_be_bytes());
+                    g.extend_from_slice(&0i16.to_be_bytes());
+                    g.extend_from_slice(&0i16.to_be_bytes());
+                    // second component, shifted
+                    g.extend_from_slice(&(ARGS_WORDS_XY | HAVE_INS | vflags).to_be_bytes());
+                    g.extend_from_slice(&(comp_base + second).to_be_bytes());
+                    g.extend_from_slice(&533i16.to_be_bytes());
+                    g.extend_from_slice(&67i16.to_be_bytes());
+                    if let Some(sc) = scale {
+                        g.extend_from_slice(&sc.to_be_bytes());
+                    }
+                    g.extend_from_slice(&(prog.len() as u16).to_be_bytes());
+                    g.extend_from_slice(prog);
+                    out.push(HGlyph {
+                        class: if *is_miap { "MIAP".into() } else { "instructed composite".into() },
+                        points: vec![],
+                        code: prog.clone(),
+                        raw_composite: Some(g),
+                    });
+                }
+            }
+        }
+    }
     out
 }
 
@@ -842,6 +976,15 @@ pub fn build_font(upem: u16, prep: &[u8], glyphs: &[HGlyph]) -> Vec<u8> {
     let mut x_mins = vec![];
     let mut max_ins = 0usize;
     for g in glyphs {
+        if let Some(raw) = &g.raw_composite {
+            use read_fonts::FontRead;
+            let cg = write_fonts::tables::glyf::CompositeGlyph::read(read_fonts::FontData::new(raw))
+                .expect("hand-encoded composite parses");
+            x_mins.push(-100i16);
+            max_ins = max_ins.max(g.code.len());
+            b.add_glyph(&cg).unwrap();
+            continue;
+        }
         if g.points.is_empty() {
             b.add_glyph(&SimpleGlyph::default()).unwrap();
             x_mins.push(0i16);
@@ -906,8 +1049,8 @@ pub fn build_font(upem: u16, prep: &[u8], glyphs: &[HGlyph]) -> Vec<u8> {
         n as u16,
         8,   // maxPoints
         1,   // maxContours
-        0,   // maxCompositePoints
-        0,   // maxCompositeContours
+        16,  // maxCompositePoints
+        4,   // maxCompositeContours
         2,   // maxZones
         8,   // maxTwilightPoints
         8,   // maxStorage
@@ -915,8 +1058,8 @@ pub fn build_font(upem: u16, prep: &[u8], glyphs: &[HGlyph]) -> Vec<u8> {
         0,   // maxInstructionDefs
         64,  // maxStackElements
         (max_ins.max(prep.len()) + 8) as u16,
-        0,
-        0,
+        4, // maxComponentElements
+        2, // maxComponentDepth
     ] {
         maxp.extend_from_slice(&v.to_be_bytes());
     }
